@@ -169,11 +169,13 @@ PROPS = {
             {"test": "TestC20Cache", "checks": 6000, "shards": 3, "gomaxprocs": [4, 16, 2]},
             {"test": "TestC20Cache", "checks": 600, "shards": 2, "race": True, "gomaxprocs": [4, 16]},
             {"test": "TestC20Many", "checks": 120, "shards": 2},
+            {"test": "TestC20Composed", "checks": 6000, "shards": 2},
         ],
         "thorough": [
             {"test": "TestC20Cache", "checks": 480000, "shards": 12, "gomaxprocs": [4, 16, 2, 8]},
             {"test": "TestC20Cache", "checks": 32000, "shards": 8, "race": True, "gomaxprocs": [4, 16, 2, 8]},
             {"test": "TestC20Many", "checks": 3000, "shards": 4},
+            {"test": "TestC20Composed", "checks": 400000, "shards": 4},
         ],
         "assumptions": [
             "a history after which no cache operation returns for 120 s is reported as a deadlock (an operation takes micro- to milliseconds; the bound is 5-6 orders of magnitude above that)",
@@ -274,12 +276,16 @@ PROPS = {
             {"test": "TestC08Hetero", "checks": 20000, "shards": 2},
             {"test": "TestC08Shadowing", "kind": "plain"},
             {"test": "TestC08Shadow", "checks": 8000, "shards": 2},
+            {"test": "TestC08Named", "checks": 12000, "shards": 2},
+            {"test": "TestC08BlockName", "checks": 6000, "shards": 2},
         ],
         "thorough": [
             {"test": "TestC08Path", "checks": 3200000, "shards": 12},
             {"test": "TestC08Hetero", "checks": 800000, "shards": 4},
             {"test": "TestC08Shadowing", "kind": "plain"},
             {"test": "TestC08Shadow", "checks": 200000, "shards": 4},
+            {"test": "TestC08Named", "checks": 300000, "shards": 3},
+            {"test": "TestC08BlockName", "checks": 150000, "shards": 3},
         ],
         "assumptions": [
             "not asserted (neither the statement nor a fixture fixes it; such paths are discarded and counted): indexing a string, .N on a map, string subscripts on sequences, pointer-receiver methods on a nil pointer, results of *Value-returning methods",
